@@ -1,7 +1,8 @@
 /-
 Syntax and decoder for the IR of the statement and operator level of parser/parser.go, which
 `harness/extract_parse.go` regenerates from the Go source on every run (`Facts.parseIR`): `Parse`,
-`firstParse`, `letStatement`, `tabularExpr`, the operator methods and their column helpers.
+`firstParse`, `letStatement`, `tabularExpr`, the operator methods and their column helpers, `sortTerm`,
+`rowCount`.
 
 The regenerated form is flat (an item is a list of strings, expressions and conditions are
 prefix-coded inside an item, blocks are closed by `["end"]`); `decodeBody` turns it into the statement
@@ -50,6 +51,7 @@ inductive ICond
   | isNF (e : IExpr)                       -- isNotFound(e)
   | truth (e : IExpr)                      -- a bool
   | more (p : String)                      -- p.pos < len(p.tokens)
+  | isInteger (e : IExpr)                  -- e.IsInteger()   (e a *BasicLit)
   deriving DecidableEq, Repr
 
 inductive Target
@@ -78,6 +80,7 @@ inductive IStmt
   | rangeInit (v w : String) (body : List IStmt)         -- for _, v := range w[:len(w)-1] { body }
   | callFn (f : String) (lhs : List Target)              -- lhs… := f()
   | retLast (w : String)                   -- return w[len(w)-1]()
+  | asType (ty : String) (lhs : List Target) (e : IExpr)   -- lhs… := e.(*ty)   (the comma-ok form)
   deriving Repr
 
 /-! ### decoding the flat form -/
@@ -216,6 +219,7 @@ def decodeCond : Nat → List String → Option (ICond × List String)
       else if k == "isnf" then (decodeExpr (r.length + 1) r).map fun (e, r) => (.isNF e, r)
       else if k == "truth" then (decodeExpr (r.length + 1) r).map fun (e, r) => (.truth e, r)
       else if k == "more" then match r with | p :: r => some (.more p, r) | _ => none
+      else if k == "isinteger" then (decodeExpr (r.length + 1) r).map fun (e, r) => (.isInteger e, r)
       else none
 
 def decodeTarget : List String → Option (Target × List String)
@@ -269,6 +273,16 @@ def decodeSimple (k : String) (a : List String) : Option IStmt :=
       | none => none
     | _ => none
   else if k == "returnlast" then match a with | [w] => some (.retLast w) | _ => none
+  else if k == "astype" then
+    match a with
+    | ty :: n :: r =>
+      match decodeNat n with
+      | some n =>
+        match decodeTargets n r with
+        | some (lhs, r1) => (decodeExprAll r1).map (.asType ty lhs ·)
+        | none => none
+      | none => none
+    | _ => none
   else none
 
 /-- statements up to the end of the input or the next `["end"]` / `["else"]` (which is left in place) -/
